@@ -185,6 +185,9 @@ func (m c09) Case(c *Ctx, r *RNG) {
 		}
 	}
 	idPoolLocal := dedup(append(shuffleStrings(r, safeIDPool), shuffleStrings(r, idPool)...))
+	if r.Chance(1, 6) {
+		idPoolLocal = append([]string{""}, idPoolLocal...) // one resource whose ID is the empty string
+	}
 	for i := 0; i < n && i < len(idPoolLocal); i++ {
 		rs := &ResSpec{Type: s.Type.Name, ID: idPoolLocal[i], Attrs: map[string]Val{}, ToOne: map[string]string{"one": r.Pick([]string{"", "p", "q"})}, ToMany: map[string][]string{"many": subsetStrings(r, []string{"m1", "m2", "m3"})}}
 		for _, a := range s.Type.Attrs {
@@ -203,7 +206,12 @@ func (m c09) Case(c *Ctx, r *RNG) {
 		if r.Bool() {
 			s.IDs = append(s.IDs, "not-there")
 		}
-		s.IDs = shuffleStrings(r, s.IDs)
+		if r.Chance(1, 8) {
+			s.IDs = append(s.IDs, "") // the empty string is an ID like any other (listed: selects the resource whose ID is "")
+		}
+		s.IDs = shuffleStrings(r, dedup(s.IDs)) // the list is a set of IDs: what a repeated ID selects is not stated
+	} else if r.Chance(1, 12) {
+		s.IDs = []string{""} // a non-empty list: selects at most the resource whose ID is ""
 	}
 	// filter
 	if r.Bool() {
